@@ -46,6 +46,7 @@ m["verif_result"] = dict(vr, status_latest=st)
 json.dump(m, open(p, "w"), indent=1)
 PY
 done
-rm -rf "$HERE/lean/PyaModel/Generated"; mv "$GENBAK" "$HERE/lean/PyaModel/Generated"
-rm -rf "$HERE/evidence"; mv "$EVBAK" "$HERE/evidence"
+# restore file by file (do not remove the directory: another check may be building from it)
+for f in "$GENBAK"/*; do cmp -s "$f" "$HERE/lean/PyaModel/Generated/$(basename "$f")" || cp -p "$f" "$HERE/lean/PyaModel/Generated/"; done; rm -rf "$GENBAK"
+for f in "$EVBAK"/*; do cmp -s "$f" "$HERE/evidence/$(basename "$f")" || cp -p "$f" "$HERE/evidence/"; done; rm -rf "$EVBAK"
 cd /; git -C /repo worktree remove --force "$WT"
